@@ -26,6 +26,9 @@ type Program struct {
 	Module string
 	Pkgs   []*ProgPkg // in dependency order (a package only imports earlier ones)
 	V2     bool       // may use generics
+	// TestFiles: the loader is asked to include in-package test files (v1 Builder.IncludeTestFiles); the *_test.go files
+	// among Extra then belong to their packages
+	TestFiles bool
 }
 
 func (p *Program) Pkg(path string) *ProgPkg {
@@ -100,6 +103,9 @@ func (g *progGen) typeExpr(cur string, depth int, imports map[string]bool, allow
 		return "struct{}"
 	case 7:
 		if allowIface {
+			if g.v2 && depth%2 == 0 {
+				return "any" // the predeclared spelling: gengo has a ready-made object for it
+			}
 			return "interface{}"
 		}
 		return leaf()
@@ -209,6 +215,10 @@ func GenProgram(r *RNG, o ProgOpts) *Program {
 					}
 					fmt.Fprintf(&b, "\t%s %s%s\n", fname, g.typeExpr(path, 2, imports, true), tag)
 					ref.fields = append(ref.fields, fname)
+					if (di+fi)%4 == 3 {
+						// a blank field: it is a field of the Go type like any other (padding, or a reference nobody names)
+						fmt.Fprintf(&b, "\t_ %s\n", []string{"*int", "[4]byte", "[]byte", "map[string]int"}[(di*3+fi)%4])
+					}
 				}
 				// embedded field: an earlier named struct (no cycles by value)
 				if r.Chance(1, 3) {
@@ -371,8 +381,20 @@ func (p *Program) Check() (*Checked, error) {
 		if err != nil {
 			return nil, fmt.Errorf("%s: %v", pk.Path, err)
 		}
+		files := []*ast.File{f}
+		if p.TestFiles {
+			for _, fn := range SortedKeys(pk.Extra) {
+				if strings.HasSuffix(fn, "_test.go") {
+					tf, err := parser.ParseFile(c.Fset, pk.Path+"/"+fn, pk.Extra[fn], parser.ParseComments)
+					if err != nil {
+						return nil, fmt.Errorf("%s: %v", pk.Path, err)
+					}
+					files = append(files, tf)
+				}
+			}
+		}
 		conf := gotypes.Config{Importer: mapImporter{pkgs: c.Pkgs}}
-		tp, err := conf.Check(pk.Path, c.Fset, []*ast.File{f}, nil)
+		tp, err := conf.Check(pk.Path, c.Fset, files, nil)
 		if err != nil {
 			return nil, fmt.Errorf("%s: %v", pk.Path, err)
 		}
